@@ -249,6 +249,7 @@ def prob_order2_constrained(mk, solver="newton", n_inner=1):
     p = np.array([-b * w, a * w], dtype=object if mk.symbolic else float)  # tangent: q.p = 0
     if mk.symbolic:
         mk.require((a * a + b * b) > 0)
+        Ser.SHIFT_DIV = True
         integ = I.ConstrainedLeapfrogIntegrator(sysm, Ser([0, 1]), n_inner_step=n_inner, reverse_check_norm=germ_norm,
                                                 projection_solver=getattr(SO, SOLVERS[solver]),
                                                 projection_solver_kwargs={"norm": germ_norm, "max_iters": 10})
